@@ -609,6 +609,10 @@ func c05Scenarios(tier string) []scenario {
 	for _, k := range []connCfg{{Client: true, Flate: true, Thr: 1, CNCT: true}, {Client: false, Flate: true, Thr: 1, CNCT: true}, {Client: true, Flate: true, Thr: 1, SNCT: true}, {Client: false, Flate: true, Thr: 1, SNCT: true}} {
 		add(c05Params{Name: "W3r", K: k, Repeat: true, Writers: [][]wop{{{Chunks: []int{300}}, {Chunks: []int{301}}}, {{Text: true, Chunks: []int{302}}, {Stream: true, Text: true, Chunks: []int{150, 153}}}}}, P(1), P(2)) // (the library's compressor only looks back over more than ~128 bytes)
 	}
+	// a streamed message whose first chunk is below the compression threshold and whose second is above it
+	for _, k := range []connCfg{{Client: false, Flate: true, Thr: 8}, {Client: true, Flate: true, Thr: 8, CNCT: true, SNCT: true}} {
+		add(c05Params{Name: "WSt", K: k, Writers: [][]wop{{{Stream: true, Text: true, Chunks: []int{5, 300}}, {Chunks: []int{300}}}, {{Chunks: []int{10}}}}}, P(1), P(2))
+	}
 	for _, k := range roles {
 		big := 5000
 		// W2: a 10-byte Write against a Write whose frame spans two transport writes
